@@ -1624,7 +1624,12 @@ class Hist(Stream):
                                                        ['setfor', rng.sample(NODES, 2)]])])
                 elif r == 5:
                     ops.append(['pool', k, ['details', ty, gen_details(rng, ty)]])
-                elif r == 6 and rng.random() < 0.5:     # add the same object again (no change)
+                elif r == 6 and rng.random() < 0.6:     # a second definition of an existing pool under another delegation id
+                    ops.append(['inc', rng.choice(NODES), ty,
+                                [{'type': ty, 'id': rng.choice(['d3', 'primary', 'other-del']), 'fmt': 'def', 'pool': rng.choice(pids),
+                                  'details': [ty, gen_details(rng, ty)]}]])
+                    ops.append(['q', 'getstrict', ops[-1][3][0]['pool']])
+                elif r == 6:                            # add the same object again (no change)
                     ops.append(['add', k])
                 else:           # incorporate_delegation into this very object: references / definitions from a node
                     dty = ty if rng.random() < 0.9 else (LAB if ty == CAP else CAP)
@@ -1681,6 +1686,11 @@ class Hist(Stream):
             {'ty': LAB, 'ops': [['new', dict(p1, did='del1')], ['new', dict(p2, did='del1', on='node-4', **{'for': ['node-5']})],
                                 ['add', 0], ['add', 1], ['index'], ['q', 'nodeids', 'del1'], ['q', 'delegids', None],
                                 ['generate'], ['regroup']]},
+            # a refused second definition of pool1 under another delegation id, then read, re-index, generate, regroup
+            {'ty': LAB, 'ops': [['new', p1], ['add', 0], ['index'],
+                                ['inc', 'node-5', LAB, [{'type': LAB, 'id': 'other-del', 'fmt': 'def', 'pool': 'pool1',
+                                                         'details': [LAB, [['vlan_range', '5-6']]]}]],
+                                ['q', 'getstrict', 'pool1'], ['index'], ['generate'], ['regroup']]},
         ] + [c for c in load_corpus('hist')]
 
     def observe(self, case):
@@ -1714,11 +1724,13 @@ class Hist(Stream):
                     ds.add_delegations(d)
                 det = obs_delegations(ds)[1]
                 before = len(ps.pool_by_id)
+                snap = {'before': obs_pools(ps)}
                 try:
                     ps.incorporate_delegation(node_id=op[1], deleg=ds)
                     o = True
                 except Exception as e:
                     o = err(e)
+                snap['after'] = obs_pools(ps)
                 heap_n += len(ps.pool_by_id) - before
             elif op[0] == 'getpool':
                 before = len(ps.pool_by_id)
@@ -1806,6 +1818,14 @@ class Hist(Stream):
         ty = case['ty']
         fresh = False          # the index was built from the registry as it is now
         for op, out, snap in zip(case['ops'], o['outs'], o['snaps']):
+            if op[0] == 'inc' and is_err(out) and sum(1 for sp in op[3] if sp['fmt'] != 'single') == 1:
+                # the one delegation of the call was refused: whatever it left behind (an auto-created empty pool) is
+                # residue of the rejected input, but every pool that EXISTED before must be exactly as it was
+                after = {p[1]: p for p in snap['after']}
+                for p in snap['before']:
+                    if after.get(p[1]) != p:
+                        return ('a refused incorporate_delegation (%s) changed the existing pool %r: %r -> %r'
+                                % (out['err'], p[1], p, after.get(p[1])))
             if op[0] in ('pool', 'add', 'inc', 'getpool'):
                 fresh = False
             elif op[0] == 'q':
